@@ -16,7 +16,7 @@ var rules = map[string]string{
 
 var components = map[string]any{
 	"real":    []string{"github.com/josephburnett/jd/v2 (all of it)", "github.com/josephburnett/jd/lib (all of it)", "main.go and v2/jd/main.go bodies: flag definitions, mode selection, option translation, error paths", "gopkg.in/yaml.v2, encoding/json, go-openapi/jsonpointer, yudai/golcs", "package flag's parser (a private FlagSet per binary)"},
-	"stub":    []string{"os (files, stdin, stdout, stderr, exit, env), io/ioutil, printing half of fmt, log (timestamp from the logical clock), net/http (serving fails at once), os/exec (no subprocess), math/rand (fixed seed)", "time and context deadlines (simulated clock: steady / slow / expired), in the mains and in both libraries; on this tree nothing reads a clock, see coverage.probes clock-read-by-code-under-test", "sync (locks that block on channels and yield after every wake-up), in the mains and in both libraries; used only by trees that contain a go statement"},
+	"stub":    []string{"os (files, symbolic links to files and directories, named pipes, /dev/stdin, stdin, stdout, stderr, exit, env, fsync, seek), io/ioutil, printing half of fmt, log (timestamp from the logical clock), path/filepath (Abs on the simulated working directory; the rest is the real package), os/signal (handlers can be installed, nothing delivers signals), net/http (serving fails at once), os/exec (no subprocess), math/rand (fixed seed)", "time and context deadlines (simulated clock: steady / slow / expired), in the mains and in both libraries; on this tree nothing reads a clock, see coverage.probes clock-read-by-code-under-test", "sync (locks that block on channels and yield after every wake-up), in the mains and in both libraries; used only by trees that contain a go statement"},
 	"changed": []string{"every map range in jd goes through the order seam (canonical order unless the history engine permutes it)", "os.Exit is a panic recovered by the simulator", "func main renamed Main, package main renamed", "after exit, kill or the step limit the process is gone: deferred code of the program can no longer touch the simulated OS", "trees that contain a go statement only: go statements carry identities, yield points at synchronisation statements, function and loop bodies, receive-only selects polled in simulator-chosen order, every process and library call that starts a goroutine runs in a testing/synctest bubble under a seeded scheduler (this tree contains no go statement: dormant)"},
 }
 
